@@ -20,7 +20,9 @@ The model copies the code, not the intention:
   * `grow` raises `ValueError` iff `value < 0` and `-value >= min(size)/2`; an empty box is left alone;
   * `multi_flat` stores the box of an entity in the cache even when it has no data, `multi_recursive`
     stores only boxes with data; keys are shared between both levels; entities without key
-    (HATCH, virtual entities without uuid) are never cached and count as a miss.
+    (HATCH, virtual entities without uuid) are never cached and count as a miss;
+  * since fix 20e7078cb the `fast` flag is part of the cache key: a model key stands for the pair
+    (handle, fast), the harness encodes it as `handle * 2 + flag`.
 -/
 namespace EzdxfVerif.BBox
 
